@@ -9,7 +9,10 @@
                         non-increasing size, vertex multiset = the members' positions (`ccw_sort_perm`);
                         `stable_argsort_valid`: the default oracle is admissible;
   * `draw_hyperedges_spec`, `draw_spec`: the composed calls succeed and consist of exactly these parts;
-  * `sc_plan_spec`      the plan of a simplicial complex;
+  * `sc_plan_spec`, `sc_net_spec`, `max_sets_spec`, `sc_segments_spec`, `sc_polygons_spec`, `sc_draw_succeeds`,
+    `draw_sc_spec`: a simplicial complex is drawn as `draw_hyperedges` of the hypergraph made of its maximal
+    simplices (of order ≤ max_order) and their node pairs without repeated sets: two nodes are joined by a line
+    iff they lie together in a simplex, the polygons are exactly the maximal simplices with ≥ 3 nodes, each once;
   * `barycenter_spec`, `edge_positions_spec`: |e| · barycenter = sum of the members' positions, keyed by edge ID;
   * `layout_keys_spec`  every layout family returns exactly the node set (bipartite: and the edge IDs);
   * `phantom_fresh`     phantom labels `max int label + 1 + k` are fresh, distinct, one per edge with ≥ 2 members.
@@ -17,6 +20,7 @@
   behaviour exhibited by the correspondence check only.
 -/
 import XgiModel.C20.Lemmas
+import XgiModel.C20.LemmasSC
 
 namespace Xgi.C20
 open Xgi
@@ -177,6 +181,244 @@ theorem phantom_fresh (h : Net) :
     simp
 
 
+/-! ### simplicial complexes -/
+
+/-- the hypergraph `H_` that `draw_simplices` draws: every edge is a maximal simplex (of the max_order-truncated
+    complex) or a pair of nodes inside one; every maximal simplex and every such pair is present (as a set);
+    no member set occurs twice (`cleanup(multiedges=False)`) -/
+theorem sc_net_spec (h : Net) (mo : Option Int) :
+    (∀ e ∈ (simplicesNet h mo).edges, e.2 ∈ maxSets h mo ∨ ∃ t ∈ maxSets h mo, e.2 ∈ pairsOf t) ∧
+    (∀ t ∈ maxSets h mo, ∃ e ∈ (simplicesNet h mo).edges, sameSet t e.2 = true) ∧
+    (∀ t ∈ maxSets h mo, ∀ pr ∈ pairsOf t, ∃ e ∈ (simplicesNet h mo).edges, sameSet pr e.2 = true) ∧
+    (simplicesNet h mo).edges.Pairwise (fun a b => sameSet a.2 b.2 = false) := by
+  obtain ⟨added, hE, hadd⟩ := simplicesNet_edges h mo
+  rw [hE]
+  have hmem : ∀ s, s ∈ added.map (·.2) ↔ s ∈ maxSets h mo ∨ ∃ t ∈ maxSets h mo, s ∈ pairsOf t := by
+    intro s; rw [hadd, List.mem_append, mem_subfaces1]
+  refine ⟨?_, ?_, ?_, mergeDuplicates_distinct added⟩
+  · intro e he
+    exact (hmem e.2).mp (List.mem_map.mpr ⟨e, mergeDuplicates_subset added e he, rfl⟩)
+  · intro t ht
+    obtain ⟨e, he, rfl⟩ := List.mem_map.mp ((hmem t).mpr (Or.inl ht))
+    exact mergeDuplicates_complete added e he
+  · intro t ht pr hpr
+    obtain ⟨e, he, rfl⟩ := List.mem_map.mp ((hmem pr).mpr (Or.inr ⟨t, ht, hpr⟩))
+    exact mergeDuplicates_complete added e he
+
+/-- the maximal simplices: simplices of order ≤ max_order (all of them when max_order is falsy) contained in no
+    other such simplex except as the same set; every such simplex lies inside a maximal one -/
+theorem max_sets_spec (h : Net) (mo : Option Int) :
+    (∀ t, t ∈ maxSets h mo ↔ ∃ p ∈ (truncate mo h).edges, p.2 = t ∧
+        ∀ q ∈ (truncate mo h).edges, isSub t q.2 = true → isSub q.2 t = true) ∧
+    (∀ p ∈ (truncate mo h).edges, ∃ t ∈ maxSets h mo, isSub p.2 t = true) ∧
+    (∀ p, p ∈ (truncate mo h).edges ↔ p ∈ h.edges ∧ ∀ m, truthy mo = some m → (p.2.length : Int) - 1 ≤ m) := by
+  refine ⟨?_, ?_, ?_⟩
+  · intro t
+    unfold maxSets maximalEdges isMaximal
+    simp only [List.mem_map, List.mem_filter, List.all_eq_true]
+    constructor
+    · rintro ⟨p, ⟨hp, hm⟩, rfl⟩
+      refine ⟨p, hp, rfl, ?_⟩
+      intro q hq hs
+      have := hm q hq
+      simpa [hs] using this
+    · rintro ⟨p, hp, rfl, hm⟩
+      refine ⟨p, ⟨hp, ?_⟩, rfl⟩
+      intro q hq
+      cases hs : isSub p.2 q.2 with
+      | false => simp
+      | true => simp [hm q hq hs]
+  · intro p hp
+    obtain ⟨q, hq, hs⟩ := exists_maximal _ _ p hp (Nat.le_refl _)
+    exact ⟨q.2, List.mem_map.mpr ⟨q, hq, rfl⟩, hs⟩
+  · intro p
+    unfold truncate
+    cases truthy mo with
+    | none => simp
+    | some m => simp
+
+/-- `draw_simplices` is `draw_hyperedges` on `H_` (so `segments_spec` and `polygons_spec` apply to it) -/
+theorem sc_plan_spec (h : Net) (pos : Pos) (mo : Option Int) (r : List Seg × List Poly)
+    (hr : drawSimplices h pos mo = .ok r) :
+    ∃ p, isArgsort (sizesOf (simplicesNet h mo) ((truthy mo).getD (maxOrder (simplicesNet h mo)))) p = true ∧
+      r = (segments (simplicesNet h mo) pos,
+           polygonsWith (simplicesNet h mo) pos ((truthy mo).getD (maxOrder (simplicesNet h mo))) p) := by
+  obtain ⟨p, hp, hd⟩ := draw_hyperedges_spec (simplicesNet h mo) pos
+    (some ((truthy mo).getD (maxOrder (simplicesNet h mo)))) none (by simp)
+  have key : drawSimplices h pos mo =
+      (if (fromMaxSimplices (truncate mo h)).edges = [] then .error .value
+       else if (fromMaxSimplices (truncate mo h)).edges.all (fun p => p.2.length ≤ 1) then .error .lib
+       else match drawHyperedges (simplicesNet h mo) pos (some ((truthy mo).getD (maxOrder (simplicesNet h mo)))) none with
+         | none => .error .argsort
+         | some r => .ok r) := by
+    unfold drawSimplices
+    cases truthy mo <;> rfl
+  rw [key, hd] at hr
+  refine ⟨p, by simpa using hp, ?_⟩
+  split at hr
+  · cases hr
+  · split at hr
+    · cases hr
+    · simpa using hr.symm
+/-- maximal simplices inherit duplicate-free member lists -/
+theorem maxSets_nodup (h : Net) (mo : Option Int) (hnd : ∀ p ∈ h.edges, p.2.Nodup) :
+    ∀ t ∈ maxSets h mo, t.Nodup := by
+  intro t ht
+  obtain ⟨p, hp, rfl, _⟩ := ((max_sets_spec h mo).1 t).mp ht
+  exact hnd p (((max_sets_spec h mo).2.2 p).mp hp).1
+
+/-- two different nodes are joined by a line iff they lie together in a simplex of order ≤ max_order
+    (for a face-closed complex: iff {a, b} is one of its simplices) -/
+theorem sc_segments_spec (h : Net) (pos : Pos) (mo : Option Int) (r : List Seg × List Poly)
+    (hr : drawSimplices h pos mo = .ok r) (hnd : ∀ p ∈ h.edges, p.2.Nodup) (a b : PyId) (hab : a ≠ b) :
+    ((∃ s ∈ r.1, sameSet s.e.2 [a, b] = true) ↔ ∃ p ∈ (truncate mo h).edges, a ∈ p.2 ∧ b ∈ p.2) ∧
+    r.1.Pairwise (fun s s' => sameSet s.e.2 s'.e.2 = false) := by
+  obtain ⟨perm, _, rfl⟩ := sc_plan_spec h pos mo r hr
+  obtain ⟨hB, hC1, hC2, hD⟩ := sc_net_spec h mo
+  obtain ⟨hM, hG, hT⟩ := max_sets_spec h mo
+  obtain ⟨hseg1, hseg2, hseg3⟩ := segments_spec (simplicesNet h mo) pos
+  simp only []
+  refine ⟨⟨?_, ?_⟩, ?_⟩
+  · rintro ⟨s, hs, hsame⟩
+    have hsE : s.e ∈ (simplicesNet h mo).edges := by
+      have : s.e ∈ (segments (simplicesNet h mo) pos).map (·.e) := List.mem_map.mpr ⟨s, hs, rfl⟩
+      rw [hseg1] at this
+      exact (List.mem_filter.mp this).1
+    have hsame' := (sameSet_iff _ _).mp hsame
+    rcases hB s.e hsE with hm | ⟨t, ht, hpr⟩
+    · obtain ⟨p, hp, hpe, _⟩ := (hM _).mp hm
+      exact ⟨p, hp, by rw [hpe]; exact (hsame' a).mpr (by simp), by rw [hpe]; exact (hsame' b).mpr (by simp)⟩
+    · obtain ⟨p, hp, rfl, _⟩ := (hM _).mp ht
+      obtain ⟨x, y, hxy, hx, hy⟩ := mem_pairsOf hpr
+      refine ⟨p, hp, ?_, ?_⟩
+      · have := (hsame' a).mpr (by simp); rw [hxy] at this
+        rcases List.mem_pair.mp this with rfl | rfl <;> assumption
+      · have := (hsame' b).mpr (by simp); rw [hxy] at this
+        rcases List.mem_pair.mp this with rfl | rfl <;> assumption
+  · rintro ⟨p, hp, ha, hb⟩
+    obtain ⟨t, ht, hsub⟩ := hG p hp
+    have hsub' := (isSub_iff _ _).mp hsub
+    obtain ⟨pr, hpr, hprs⟩ := pairsOf_complete (hsub' a ha) (hsub' b hb) hab
+    obtain ⟨e, he, hes⟩ := hC2 t ht pr hpr
+    have hsame : sameSet e.2 [a, b] = true := sameSet_trans (sameSet_symm hes) hprs
+    have hlen : e.2.length = 2 := by
+      rcases hB e he with hm | ⟨t', _, hpr'⟩
+      · exact nodup_pair_length (maxSets_nodup h mo hnd _ hm) hsame hab
+      · exact length_of_mem_pairsOf hpr'
+    obtain ⟨s, hs, hse⟩ := (hseg2 e he).mpr hlen
+    exact ⟨s, hs, by rw [hse]; exact hsame⟩
+  · have : ((segments (simplicesNet h mo) pos).map (·.e)).Pairwise (fun a b => sameSet a.2 b.2 = false) := by
+      rw [hseg1]; exact hD.sublist List.filter_sublist
+    rwa [List.pairwise_map] at this
+
+/-- the polygons of a complex are maximal simplices (of the max_order-truncated complex) with ≥ 3 nodes, each
+    drawn once with exactly its members' positions as vertices; every such maximal simplex up to the maximum
+    order in force is drawn -/
+theorem sc_polygons_spec (h : Net) (pos : Pos) (mo : Option Int) (r : List Seg × List Poly)
+    (hr : drawSimplices h pos mo = .ok r) (hnd : ∀ p ∈ h.edges, p.2.Nodup) :
+    (∀ q ∈ r.2, q.e.2 ∈ maxSets h mo ∧ 3 ≤ q.e.2.length ∧ q.verts.Perm (q.e.2.map pos)) ∧
+    (∀ t ∈ maxSets h mo, 3 ≤ t.length →
+        (t.length : Int) - 1 ≤ (truthy mo).getD (maxOrder (simplicesNet h mo)) →
+        ∃ q ∈ r.2, sameSet t q.e.2 = true) ∧
+    r.2.Pairwise (fun q q' => sameSet q.e.2 q'.e.2 = false) ∧
+    r.2.Pairwise (fun q q' => q'.e.2.length ≤ q.e.2.length) := by
+  obtain ⟨perm, hperm, rfl⟩ := sc_plan_spec h pos mo r hr
+  obtain ⟨hB, hC1, hC2, hD⟩ := sc_net_spec h mo
+  obtain ⟨hP1, hP2, hP3⟩ := polygons_spec (simplicesNet h mo) pos _ perm hperm
+  simp only []
+  have hmemE : ∀ q ∈ polygonsWith (simplicesNet h mo) pos ((truthy mo).getD (maxOrder (simplicesNet h mo))) perm,
+      q.e ∈ (simplicesNet h mo).edges ∧ 3 ≤ q.e.2.length := by
+    intro q hq
+    have : q.e ∈ (polygonsWith (simplicesNet h mo) pos ((truthy mo).getD (maxOrder (simplicesNet h mo))) perm).map (·.e) :=
+      List.mem_map.mpr ⟨q, hq, rfl⟩
+    have := (hP1.mem_iff).mp this
+    have h2 := List.mem_filter.mp this
+    exact ⟨h2.1, by have := h2.2; simp at this; exact this.1⟩
+  refine ⟨?_, ?_, ?_, hP2⟩
+  · intro q hq
+    obtain ⟨hE, h3⟩ := hmemE q hq
+    refine ⟨?_, h3, hP3 q hq⟩
+    rcases hB q.e hE with hm | ⟨t, _, hpr⟩
+    · exact hm
+    · have := length_of_mem_pairsOf hpr; omega
+  · intro t ht h3 hm
+    obtain ⟨e, he, hes⟩ := hC1 t ht
+    have htn := maxSets_nodup h mo hnd t ht
+    have hlen : e.2.length = t.length := by
+      rcases hB e he with hm' | ⟨t', _, hpr⟩
+      · have hen := maxSets_nodup h mo hnd _ hm'
+        exact ((List.perm_ext_iff_of_nodup hen htn).mpr (fun x => ((sameSet_iff _ _).mp hes x).symm)).length_eq
+      · exfalso
+        have hsub : t ⊆ e.2 := fun x hx => ((sameSet_iff _ _).mp hes x).mp hx
+        have := (List.subperm_of_subset htn hsub).length_le
+        have := length_of_mem_pairsOf hpr
+        omega
+    have hin : e ∈ (simplicesNet h mo).edges.filter
+        (fun p => 3 ≤ p.2.length ∧ (p.2.length : Int) - 1 ≤ (truthy mo).getD (maxOrder (simplicesNet h mo))) := by
+      refine List.mem_filter.mpr ⟨he, ?_⟩
+      rw [hlen]; simp; exact ⟨h3, by omega⟩
+    obtain ⟨q, hq, hqe⟩ := List.mem_map.mp ((hP1.mem_iff).mpr hin)
+    exact ⟨q, hq, by rw [hqe]; exact hes⟩
+  · have h1 : ((simplicesNet h mo).edges.filter
+        (fun p => 3 ≤ p.2.length ∧ (p.2.length : Int) - 1 ≤ (truthy mo).getD (maxOrder (simplicesNet h mo)))).Pairwise
+        (fun a b => sameSet a.2 b.2 = false) := hD.sublist List.filter_sublist
+    have h2 := (hP1.pairwise_iff (R := fun (a b : Edge) => sameSet a.2 b.2 = false) (by
+      intro x y hxy
+      cases hc : sameSet y.2 x.2 with
+      | false => rfl
+      | true => rw [sameSet_symm hc] at hxy; exact absurd hxy (by simp))).mpr h1
+    rwa [List.pairwise_map] at h2
+/-- drawing a complex succeeds as soon as one simplex (of order ≤ max_order) has two or more nodes -/
+theorem sc_draw_succeeds (h : Net) (pos : Pos) (mo : Option Int) (hnd : ∀ p ∈ h.edges, p.2.Nodup)
+    (hbig : ∃ p ∈ (truncate mo h).edges, 2 ≤ p.2.length) :
+    ∃ r, drawSimplices h pos mo = .ok r := by
+  obtain ⟨p, hp, h2⟩ := hbig
+  obtain ⟨hM, hG, hT⟩ := max_sets_spec h mo
+  obtain ⟨t, ht, hsub⟩ := hG p hp
+  have hlen : 2 ≤ t.length := by
+    have hsub' : p.2 ⊆ t := (isSub_iff _ _).mp hsub
+    have := (List.subperm_of_subset (hnd p ((hT p).mp hp).1) hsub').length_le
+    omega
+  have hmem : t ∈ (fromMaxSimplices (truncate mo h)).edges.map (·.2) := by
+    rw [fromMax_members]; exact ht
+  obtain ⟨e, he, het⟩ := List.mem_map.mp hmem
+  obtain ⟨q, _, hd⟩ := draw_hyperedges_spec (simplicesNet h mo) pos
+    (some ((truthy mo).getD (maxOrder (simplicesNet h mo)))) none (by simp)
+  have key : drawSimplices h pos mo =
+      (if (fromMaxSimplices (truncate mo h)).edges = [] then .error .value
+       else if (fromMaxSimplices (truncate mo h)).edges.all (fun p => p.2.length ≤ 1) then .error .lib
+       else match drawHyperedges (simplicesNet h mo) pos (some ((truthy mo).getD (maxOrder (simplicesNet h mo)))) none with
+         | none => .error .argsort
+         | some r => .ok r) := by
+    unfold drawSimplices
+    cases truthy mo <;> rfl
+  rw [key, hd]
+  have h1 : (fromMaxSimplices (truncate mo h)).edges ≠ [] := by
+    intro hc; rw [hc] at he; simp at he
+  have h2' : ((fromMaxSimplices (truncate mo h)).edges.all (fun p => decide (p.2.length ≤ 1))) = false := by
+    rw [List.all_eq_false]
+    exact ⟨e, he, by rw [het]; simp; omega⟩
+  simp [h1, h2']
+
+/-- `draw` of a complex: the node markers plus `draw_simplices` with the maximum order in force -/
+theorem draw_sc_spec (h : Net) (pos : Pos) (mo : Option Int) (perm : Option (List Nat)) (p : Plan)
+    (hd : draw .sc h pos mo perm = .ok p) :
+    p.markers = markers h pos ∧
+    drawSimplices h pos (some ((truthy mo).getD (maxOrder h))) = .ok (p.segments, p.polygons) := by
+  have key : draw .sc h pos mo perm =
+      (drawSimplices h pos (some ((truthy mo).getD (maxOrder h)))).map
+        (fun r => { markers := markers h pos, segments := r.1, polygons := r.2 }) := by
+    unfold draw
+    cases truthy mo <;> rfl
+  rw [key] at hd
+  cases hs : drawSimplices h pos (some ((truthy mo).getD (maxOrder h))) with
+  | error e => rw [hs] at hd; cases hd
+  | ok r =>
+    rw [hs] at hd
+    simp only [Except.map] at hd
+    cases hd
+    exact ⟨rfl, rfl⟩
+
 /-! ### non-vacuity -/
 
 def exNet : Net := { nodes := [.int 1, .int 2, .int 3, .str "a"],
@@ -189,6 +431,13 @@ example : isArgsort (sizesOf exNet 3) [0, 1] = true := by decide
 example : ((polygonsWith exNet exPos 3 [0, 1]).map (·.e.1)) = [.int 3, .int 1] := by decide
 example : ((polygonsWith exNet exPos 2 [0]).map (·.e.1)) = [.int 1] := by decide
 example : phantomIds exNet = [.int 4, .int 5, .int 6] := by decide
+def exSC : Net := { nodes := [.int 1, .int 2, .int 3, .int 4],
+                    edges := [(.int 0, [.int 1, .int 2, .int 3]), (.int 1, [.int 1, .int 2]), (.int 2, [.int 1, .int 3]),
+                              (.int 3, [.int 2, .int 3]), (.int 4, [.int 3, .int 4])] }
+example : maxSets exSC none = [[.int 1, .int 2, .int 3], [.int 3, .int 4]] := by decide
+example : ((simplicesNet exSC none).edges.map (·.2)) =
+    [[.int 1, .int 2, .int 3], [.int 1, .int 2], [.int 1, .int 3], [.int 2, .int 3], [.int 3, .int 4]] := by decide
+example : ∃ p ∈ (truncate (some 1) exSC).edges, 2 ≤ p.2.length := ⟨(.int 1, [.int 1, .int 2]), by decide, by decide⟩
 example : layoutKeys .bipartite .hg exNet = some (exNet.nodes, some [.int 0, .int 1, .int 2, .int 3]) := by decide
 
 end Xgi.C20
